@@ -36,7 +36,7 @@ CHECKS = {
    text="Lean theorems over the handler model the driver executes (read frame -> command -> map operation -> one reply): every well-formed SET/GET/DEL request frame is parsed back to its command; for any "
         "request sequence the handler writes exactly the concatenation of the map model's replies, in order, one per request, and leaves the store as the map does; GET returns the stored bytes verbatim; "
         "DEL counts each key as it is deleted in turn. Tied to the real server over loopback TCP: request scripts x segmentations (down to one byte) x pipelining depths, values with CR/LF/NUL and up to "
-        "200 KB, compared byte for byte with a python map and the Lean model.",
+        "200 KB, compared byte for byte with a python map and the Lean model. At byte level (Props/C06Bytes.lean): for EVERY segmentation of the bytes of any well-formed request sequence the reply bytes and the final store are those of the map model (segmentation and pipelining are irrelevant); a stream that ends inside a request yields exactly the replies of the complete requests before it and a reset, never a reply to the partial one.",
    note=COMMON_NOTE + "PARTIAL: the theorem is at the level of the frames a connection delivers; that those frames are independent of segmentation is C08 (c08 theorems), that the real store is the map is C01. "
         "Trusted: kernel TCP delivers bytes in order; tokio scheduling of handler and blocking pool.",
    technique="Lean 4 proof (handler model refines the map model, induction over requests) + differential correspondence with the real server over TCP",
@@ -45,7 +45,7 @@ CHECKS = {
    text="Lean theorems for every byte stream in every segmentation: the connection handler model never ends by a panic (no index/overflow/advance panic in check, parse, parse_frame, the reader loop, "
         "the command layer; replies are never arrays so write_frame never hits unimplemented!); the store afterwards is exactly the store before with the leading well-formed commands applied; accepted "
         "lengths never exceed the bytes received. Tied to the real server: ~55 hostile streams (garbage, wrong arity, non-UTF-8, truncations, 200000-deep nesting, 19-20 digit lengths, mutations) each on its "
-        "own connection interleaved with a well-behaved persistent connection; process/run loop alive, control replies and final store equal the model's.",
+        "own connection interleaved with a well-behaved persistent connection; process/run loop alive, control replies and final store equal the model's. Byte level (Props/C06Bytes.lean): for arbitrary bytes the frames read are a unique run of complete frames followed by one terminal result; the final store is the fold of exactly the well-formed commands decoded before the first error (named, not just existential), of which only SET/DEL change it.",
    note=COMMON_NOTE + "PARTIAL: isolation between connections is structural in the model (connections share only the store); tokio's containment of a task panic, memory exhaustion by sheer volume and the "
         "stack bound of the real recursion (depth limit 32 proved for the model, real stack use observed) are runtime facts.",
    technique="Lean 4 proof (totality + store = fold of well-formed command prefix) + hostile-corpus replay against the real server",
@@ -54,7 +54,7 @@ CHECKS = {
    text="Lean theorems over the handler Shutdown LTS (top / select / executing / writing / done): a handler is never `done` with part of a reply on the wire (no torn reply); replies sent never exceed "
         "store operations returned (every acknowledged command is in the store), also for a reply still being written; after the signal a handler always has an own step enabled and every step strictly "
         "decreases an explicit distance to `done` (bounded by frames still deliverable), so run returns. Tied to the real server by firing the shutdown future at each handler state (idle, partial frame, "
-        "store call held on a gate, pipelined commands, 600 KB reply in flight, mixed).",
+        "store call held on a gate, pipelined commands, 600 KB reply in flight, mixed). Byte level (Props/C06Bytes.lean): whatever the input, the reply byte string of the handler model is a concatenation of complete encodings of reply frames, one per applied command.",
    note=COMMON_NOTE + "PARTIAL: protocol logic proved; select! fairness under endless pipelining, TCP turning close-with-unread-data into RST (accepted as end of stream) and wall-clock bounds are observed, not proved. "
         "A client that never reads its reply is outside the property's listed client states.",
    technique="Lean 4 proof (safety invariant + variant function on a labelled transition system) + scenario replay against the real server",
